@@ -70,3 +70,60 @@ def description_lengths(labels, x, y, sig, tree_code, margin=0.02):
             nll = gauss_nll(ft["phi0"] + ft["Phi"] @ t2, y, sig)
             vals.append(nll + (codelen(th, np.diag(I), kept) if kept else 0.0) + tree_code)
     return min(vals), max(vals), {"nll": ft["nll"], "theta": th.tolist(), "Idiag": np.diag(I).tolist(), "steps": steps.tolist(), "k": k}
+
+
+def local_fit(labels, x, y, sig, theta0):
+    """Independent local maximum-likelihood fit of ANY tree from a starting point (used for planted non-linear truths:
+    with small noise the optimum next to the planted parameters is the ML point).  Returns dict(nll, theta, Idiag, ok)."""
+    from scipy.optimize import least_squares
+    k = len(theta0)
+
+    def model(th):
+        a = [np.full_like(x, th[j] if j < k else 0.0) for j in range(4)]
+        v, good = p1.tree_values(labels, x=x, a=a)
+        return v, good
+
+    def resid(th):
+        v, good = model(th)
+        r = (v - y) / sig
+        return np.where(np.isfinite(r), r, 1e6)
+    sol = least_squares(resid, np.array(theta0, dtype=float), method="lm", xtol=1e-14, ftol=1e-14, gtol=1e-14)
+    th = sol.x
+    v, good = model(th)
+    if not good.all():
+        return {"ok": False}
+
+    def nll(t):
+        vv, gg = model(t)
+        return gauss_nll(vv, y, sig) if gg.all() else float("inf")
+    H = np.zeros((k, k))
+    for i in range(k):
+        for j in range(i, k):
+            hi, hj = 1e-4 * max(abs(th[i]), 1e-3), 1e-4 * max(abs(th[j]), 1e-3)
+            ei, ej = np.eye(k)[i] * hi, np.eye(k)[j] * hj
+            H[i, j] = H[j, i] = (nll(th + ei + ej) - nll(th + ei - ej) - nll(th - ei + ej) + nll(th - ei - ej)) / (4 * hi * hj)
+    ok = bool(np.all(np.isfinite(H)) and np.all(np.linalg.eigvalsh(H) > 0))
+    return {"ok": ok, "nll": nll(th), "theta": th, "Idiag": np.diag(H), "moved": float(np.max(np.abs(th - np.array(theta0)) / np.maximum(np.abs(theta0), 1e-9)))}
+
+
+def dl_interval_at(labels, x, y, sig, theta, Idiag, tree_code, margin=0.02):
+    """description length interval (snapping ties either way) at a given optimum of any tree"""
+    import itertools
+    k = len(theta)
+    steps = np.abs(theta) * np.sqrt(np.asarray(Idiag) / 12.0)
+    sure = [i for i in range(k) if steps[i] < 1 - margin]
+    maybe = [i for i in range(k) if 1 - margin <= steps[i] <= 1 + margin]
+    vals = []
+    for r in range(len(maybe) + 1):
+        for extra in itertools.combinations(maybe, r):
+            drop = set(sure) | set(extra)
+            kept = [i for i in range(k) if i not in drop]
+            t2 = [0.0 if i in drop else theta[i] for i in range(k)]
+            a = [np.full_like(x, t2[j] if j < k else 0.0) for j in range(4)]
+            v, good = p1.tree_values(labels, x=x, a=a)
+            if not good.all():
+                continue          # snapping would make the likelihood infinite: not dropped
+            vals.append(gauss_nll(v, y, sig) + (codelen(theta, Idiag, kept) if kept else 0.0) + tree_code)
+    if not vals:
+        vals = [float("nan")]
+    return min(vals), max(vals)
